@@ -351,9 +351,12 @@ Linear_Expression_Impl<Row>::operator*=(Coefficient_traits::const_reference n) {
     PPL_ASSERT(OK());
     return *this;
   }
+  // `n' may be (a reference to) one of the coefficients of `*this'.
+  PPL_DIRTY_TEMP_COEFFICIENT(factor);
+  factor = n;
   for (typename Row::iterator i = row.begin(),
          i_end = row.end(); i != i_end; ++i) {
-    (*i) *= n;
+    (*i) *= factor;
   }
   PPL_ASSERT(OK());
   return *this;
@@ -557,8 +560,11 @@ Linear_Expression_Impl<Row>
 template <typename Row>
 void
 Linear_Expression_Impl<Row>
-::mul_assign(Coefficient_traits::const_reference c,
+::mul_assign(Coefficient_traits::const_reference c_arg,
                    dimension_type start, dimension_type end) {
+  // `c_arg' may be (a reference to) one of the coefficients of `*this'.
+  PPL_DIRTY_TEMP_COEFFICIENT(c);
+  c = c_arg;
   if (c == 0) {
     typename Row::iterator i = row.lower_bound(start);
     const typename Row::iterator& i_end = row.end();
@@ -593,7 +599,12 @@ Linear_Expression_Impl<Row>
     mul_assign(c, start, end);
     return;
   }
-  Parma_Polyhedra_Library::linear_combine(row, y.row, c1, c2, start, end);
+  // `c1' and `c2' may be (references to) coefficients of `*this'.
+  PPL_DIRTY_TEMP_COEFFICIENT(k1);
+  PPL_DIRTY_TEMP_COEFFICIENT(k2);
+  k1 = c1;
+  k2 = c2;
+  Parma_Polyhedra_Library::linear_combine(row, y.row, k1, k2, start, end);
   PPL_ASSERT(OK());
 }
 
@@ -602,12 +613,26 @@ template <typename Row2>
 void
 Linear_Expression_Impl<Row>
 ::linear_combine_lax(const Linear_Expression_Impl<Row2>& y,
-                     Coefficient_traits::const_reference c1,
-                     Coefficient_traits::const_reference c2,
+                     Coefficient_traits::const_reference c1_arg,
+                     Coefficient_traits::const_reference c2_arg,
                      dimension_type start, dimension_type end) {
   PPL_ASSERT(start <= end);
   PPL_ASSERT(end <= row.size());
   PPL_ASSERT(end <= y.row.size());
+  if (static_cast<const void*>(&y) == static_cast<const void*>(this)) {
+    // `y' is an alias of `*this': the row-level combination would read
+    // coefficients it has already overwritten.
+    PPL_DIRTY_TEMP_COEFFICIENT(c);
+    c = c1_arg;
+    c += c2_arg;
+    mul_assign(c, start, end);
+    return;
+  }
+  // `c1_arg' and `c2_arg' may be (references to) coefficients of `*this'.
+  PPL_DIRTY_TEMP_COEFFICIENT(c1);
+  PPL_DIRTY_TEMP_COEFFICIENT(c2);
+  c1 = c1_arg;
+  c2 = c2_arg;
   if (c1 == 0) {
     if (c2 == 0) {
       PPL_ASSERT(c1 == 0);
